@@ -2,4 +2,53 @@
 
 package main
 
-func verifMulti(run verifRun) int { return 99 }
+import (
+	"fmt"
+	"os"
+	"sync"
+
+	"github.com/thought-machine/please/src/core"
+	"github.com/thought-machine/please/src/verifsim"
+)
+
+// verifMulti runs several logical `plz build` invocations (C31) inside one bubble: flag parsing and
+// configuration are done once (they are identical for all of them), then each invocation gets its
+// own BuildState, graph, parser, cache object and display through Please(), exactly as a separate
+// process would. What they share besides the repository on disk is noted in DESIGN (package-level
+// globals of the build and core packages).
+func verifMulti(run verifRun) int {
+	initBuild(os.Args)
+	n := len(run.Multi)
+	codes := make([]int, n)
+	var wg sync.WaitGroup
+	for i := range run.Multi {
+		i := i
+		wg.Add(1)
+		tok := verifsim.Spawn()
+		go func() {
+			defer wg.Done()
+			defer verifsim.Enter(tok)()
+			verifsim.SetProc(fmt.Sprintf("inv%d", i))
+			off := 0
+			if i < len(run.MultiOffsets) {
+				off = run.MultiOffsets[i]
+			}
+			for j := 0; j < off; j++ {
+				verifsim.Yield("offset")
+			}
+			targets := core.ParseBuildLabels(run.Multi[i])
+			success, state := Please(targets, config, true, false)
+			codes[i] = toExitCode(success, state)
+			verifsim.Tracef("M %d exit %d\n", i, codes[i])
+		}()
+	}
+	verifsim.Yield("multi-wait")
+	wg.Wait()
+	worst := 0
+	for _, c := range codes {
+		if c != 0 {
+			worst = c
+		}
+	}
+	return worst
+}
